@@ -1,0 +1,40 @@
+//go:build verif
+
+package limiter
+
+import "sync/atomic"
+
+// Verification hooks (build tag "verif" only): named schedule points and read-only accessors used by the
+// runtime monitors under /verif.  With the tag off verifPoint is an empty function and none of this exists.
+
+var verifHook atomic.Pointer[func(name string)]
+
+// SetVerifHook installs (or, with nil, removes) the function called at every schedule point.
+func SetVerifHook(f func(name string)) {
+	if f == nil {
+		verifHook.Store(nil)
+		return
+	}
+	verifHook.Store(&f)
+}
+
+func verifPoint(name string) {
+	if f := verifHook.Load(); f != nil {
+		(*f)(name)
+	}
+}
+
+// VerifInFlight returns the limiter's private in-flight gauge.
+func (l *DefaultLimiter) VerifInFlight() int64 {
+	return atomic.LoadInt64(l.inFlight)
+}
+
+// VerifBacklogLen returns the number of elements in the backlog.
+func (l *QueueBlockingLimiter) VerifBacklogLen() int {
+	return int(l.backlog.len())
+}
+
+// VerifOrdering returns the ordering the backlog actually uses.
+func (l *QueueBlockingLimiter) VerifOrdering() QueueOrdering {
+	return l.backlog.ordering
+}
